@@ -28,6 +28,7 @@ CLAIMED = {
  "C20": func("sqrt / sqrt_vartime / wrapping_sqrt(_vartime) / checked_sqrt(_vartime) / SquareRoot on Uint (1,2,3,4,8,16 limbs) and BoxedUint (1..=20 limbs): s^2 <= x < (s+1)^2 against BigUint, checked forms some iff perfect square, result precision; inputs t^2-1, t^2, t^2+1 for structured t, every 2^k and 2^k+-1, MAX, odd bit lengths near the precision and a Newton worst-case search guided by an oracle-side model of the iteration.", "DESIGN.md §4 C20"),
  "C16": func("byte/hex/array/word/limb/serde/fmt encodings of Uint (1..8,16,32 limbs), Int, Limb and BoxedUint against the positional definition with asymmetric contents; hostile hex (every byte value 0x00..0xff at every position, multi-byte UTF-8, wrong lengths) with documented panic / none exactly for malformed input; BoxedUint byte decoders for every bits_precision 0..=520 x every length 0..=cap+9 with values just below / at / above 2^precision (InputSize / Precision errors exactly as documented); primitive, concat/split, resize, widen/shorten conversions.", "DESIGN.md §4 C16"),
  "C17": func("to_string_radix_vartime / from_str_radix_vartime / from_str_radix_with_precision_vartime / num_traits::Num::from_str_radix for every radix 2..=36 on Uint (1,2,3,4,8,16,40 limbs) and BoxedUint (1..=140 limbs, across the 32-limb recursion and the 128-limb buffer): canonical lowercase output against BigUint, exact parse of plain and decorated numerals, numerals at and above 2^BITS must yield the size/precision error (never a wrapped value), non-numerals (empty, lone '+', misplaced underscores, digits >= radix, arbitrary bytes) the empty/invalid-digit error, never a panic; parsed boxed values must be usable (bits, re-format).", "DESIGN.md §4 C17"),
+ "C18": func("DER (U64..U8192: to_der, encode_to_slice, encoded_len, from_der, TryFrom<AnyRef>, TryFrom<UintRef>) and RLP (U64..U256: encode, RlpStream::append, decode, Rlp::as_val) against my own strict canonical codecs: encodings must be byte-identical to the canonical one; for arbitrary byte strings (boundary lengths around the capacity, leading 0x00/0x7f/0x80/0xff, wrong tags, truncated / overlong / non-minimal / indefinite length fields, mutations of valid encodings) the decoder must return Ok(v) exactly for the canonical encoding of a fitting v and an error otherwise, never panic.", "DESIGN.md §4 C18"),
 }
 
 checks = []
